@@ -43,6 +43,8 @@ pub enum Op {
 	CloneContinue,
 	/// Continue on the original (the clone is checked and dropped).
 	CloneKeep,
+	/// `clone_from` into an independently built object that holds `n` unrelated entries, then continue on it.
+	CloneFromInto(usize),
 }
 
 fn val(n: u32) -> RefValue {
@@ -347,6 +349,19 @@ pub fn apply(op: &Op, obj: &mut Object, model: &mut Model) -> Result<(), String>
 				(_, n) => return Err(format!("get_unique_mut({k:?}) wrong result kind with {n} matching entries")),
 			}
 		}
+		Op::CloneFromInto(n) => {
+			let mut dst = Object::new();
+			for i in 0..*n {
+				dst.push(format!("unrelated-{i}").as_str().into(), Value::Null);
+			}
+			if n % 2 == 1 {
+				// an emptied destination keeps its capacity
+				while dst.remove_at(0).is_some() {}
+			}
+			dst.clone_from(obj);
+			check_index(obj).map_err(|m| format!("source after clone_from: {m}"))?;
+			*obj = dst;
+		}
 		Op::CloneContinue | Op::CloneKeep => {
 			let c = obj.clone();
 			if c != *obj || c.len() != obj.len() {
@@ -434,6 +449,8 @@ pub fn all_instances(keys: &[&str], len: usize, values: &[u32]) -> Vec<Op> {
 	v.push(Op::ExtendPairs(vec![(keys[keys.len() - 1].to_string(), values[0]), (keys[keys.len() - 1].to_string(), values[0])]));
 	v.push(Op::CloneContinue);
 	v.push(Op::CloneKeep);
+	v.push(Op::CloneFromInto(0));
+	v.push(Op::CloneFromInto(9));
 	v
 }
 
@@ -476,6 +493,7 @@ fn enc_op(op: &Op) -> J {
 		Op::GetUniqueMutSet(k, v) => json!(["get_unique_mut_set", es(k), v]),
 		Op::CloneContinue => json!(["clone_continue"]),
 		Op::CloneKeep => json!(["clone_keep"]),
+		Op::CloneFromInto(n) => json!(["clone_from_into", n]),
 	}
 }
 
@@ -505,6 +523,7 @@ fn dec_op(j: &J) -> Op {
 		"get_unique_mut_set" => Op::GetUniqueMutSet(ds(&j[1]), u(&j[2])),
 		"clone_continue" => Op::CloneContinue,
 		"clone_keep" => Op::CloneKeep,
+		"clone_from_into" => Op::CloneFromInto(j[1].as_u64().unwrap() as usize),
 		other => panic!("unknown op {other}"),
 	}
 }
@@ -555,6 +574,7 @@ fn arb_op(keys: Vec<String>, bias_grow: bool) -> BoxedStrategy<Op> {
 		1 => (key.clone(), v.clone()).prop_map(|(k, x)| Op::GetUniqueMutSet(k, x)),
 		1 => Just(Op::CloneContinue),
 		1 => Just(Op::CloneKeep),
+		1 => prop::sample::select(vec![0usize, 1, 5, 9, 40, 41, 150]).prop_map(Op::CloneFromInto),
 	]
 	.boxed()
 }
@@ -811,6 +831,77 @@ pub fn run(ctx: &mut Ctx) {
 					}
 					Err(m) => Outcome::fail(m),
 				}
+			},
+			|ops| ops_json(ops),
+		);
+		ctx.add(fam);
+	}
+	// H4 - many distinct keys: the index grows through 3, 7, 14, 28, 56, 112, 224, 448 buckets
+	if ctx.wants("H4_many_distinct_keys") {
+		let n = ctx.pick(300, 6_000);
+		let keys: Vec<String> = (0..1200).map(|i| format!("key-{i}")).collect();
+		let universe_owned: Vec<String> = keys.iter().step_by(7).cloned().chain(["absent".to_string()]).collect();
+		let fam = Fam::new("H4_many_distinct_keys", "proptest: histories of up to 700 operations over 1200 distinct keys, growth-biased (objects reach several hundred distinct keys, i.e. up to 8 growth cycles of the hash index), then a shrinking phase; the object is validated after every 16th operation and at the end against *every* key it holds plus a sample of absent ones; non-trivial = more than 112 distinct keys were present at some point", false);
+		let ks = keys.clone();
+		let fam = run_proptest(
+			ctx,
+			fam,
+			n,
+			move || (proptest::collection::vec(arb_op(ks.clone(), true), 100..500), proptest::collection::vec(arb_op(ks.clone(), false), 0..200)).prop_map(|(mut a, b)| { a.extend(b); a }),
+			|ops| {
+				let universe: Vec<&str> = universe_owned.iter().map(|s| s.as_str()).collect();
+				let mut obj = Object::new();
+				let mut model: Model = vec![];
+				let mut max_distinct = 0;
+				for (i, op) in ops.iter().enumerate() {
+					if let Err(m) = apply(op, &mut obj, &mut model) {
+						return Outcome::fail(format!("op #{i}: {m}"));
+					}
+					if i % 16 == 15 {
+						if let Err(m) = check_object(&obj, &model, &universe) {
+							return Outcome::fail(format!("after op #{i} ({op:?}): {m}"));
+						}
+						let mut d: Vec<&str> = model.iter().map(|(k, _)| k.as_str()).collect();
+						d.sort();
+						d.dedup();
+						max_distinct = max_distinct.max(d.len());
+					}
+				}
+				if let Err(m) = check_object(&obj, &model, &universe) {
+					return Outcome::fail(format!("final state: {m}"));
+				}
+				Outcome::ok(max_distinct > 112, vec![if max_distinct > 224 { "distinct_gt_224" } else if max_distinct > 112 { "distinct_113_224" } else { "distinct_le_112" }])
+			},
+			|ops| ops_json(ops),
+		);
+		ctx.add(fam);
+	}
+	// H5 - very few keys, long histories: dozens of duplicates per key
+	if ctx.wants("H5_heavy_duplication") {
+		let n = ctx.pick(1_500, 40_000);
+		let keys: Vec<String> = vec!["a".into(), "b".into(), "a-key-longer-than-sixteen-bytes".into()];
+		let fam = Fam::new("H5_heavy_duplication", "proptest: histories of up to 300 operations over only 3 keys, growth-biased (a key reaches dozens of duplicates), with removals through iterators in all three consumption modes, insert/insert_front collapses, sorts, clone_from; full validation after every operation; non-trivial = some key had >= 17 duplicates when a removal or collapse happened", false);
+		let ks = keys.clone();
+		let fam = run_proptest(
+			ctx,
+			fam,
+			n,
+			move || (proptest::collection::vec(arb_op(ks.clone(), true), 20..200), proptest::collection::vec(arb_op(ks.clone(), false), 0..100)).prop_map(|(mut a, b)| { a.extend(b); a }),
+			|ops| {
+				let universe = ["a", "b", "a-key-longer-than-sixteen-bytes", "zz"];
+				let mut obj = Object::new();
+				let mut model: Model = vec![];
+				let mut heavy = false;
+				for (i, op) in ops.iter().enumerate() {
+					let before = universe.iter().map(|k| model.iter().filter(|(mk, _)| mk == k).count()).max().unwrap_or(0);
+					if before >= 17 && matches!(op, Op::Remove(..) | Op::RemoveUnique(_) | Op::Insert(..) | Op::InsertFront(..)) {
+						heavy = true;
+					}
+					if let Err(m) = step(op, &mut obj, &mut model, &universe) {
+						return Outcome::fail(format!("op #{i}: {m}"));
+					}
+				}
+				Outcome::ok(heavy, vec![if heavy { "removal_with_ge17_duplicates" } else { "light" }])
 			},
 			|ops| ops_json(ops),
 		);
